@@ -78,8 +78,8 @@ func genManifest() {
 			"name": "larkcheck", "path": "/verif/checker", "serves_properties": served,
 			"kind_free_text": "repository-specific static analyser (go/packages + go/types + go/ssa + go/callgraph/vta): rule instances are obligations over /repo's source; overlay mutants as positive controls",
 		}},
-		"checks": checks,
-		"notes": "Static analysis only. Every check loads and type-checks /repo's working tree on every run, reports violated obligations as VIOLATION lines with a replay file under /verif/replays, prints KNOWN-FINDING lines for entries of /verif/known_findings.json (read-only at run time) and rewrites /verif/evidence/<id>.json. See DESIGN.md.",
+		"checks":         checks,
+		"notes":          "Static analysis only. Every check loads and type-checks /repo's working tree on every run, reports violated obligations as VIOLATION lines with a replay file under /verif/replays, prints KNOWN-FINDING lines for entries of /verif/known_findings.json (read-only at run time) and rewrites /verif/evidence/<id>.json. See DESIGN.md.",
 		"not_applicable": nas,
 	}
 	if nas == nil {
